@@ -11,6 +11,10 @@ claimed = {
    text="Decides from source the parameters a symmetric edit would change without breaking the self round-trip: LZHUF constants, all entries of the position-code and CRC tables (derived by the checker from the canonical length table / polynomial), little-endian header layout, checksum/size/data ordering and CRC coverage on SSA, initial tree state. Does not decide byte-for-byte agreement with a reference codec on all inputs (tree update arithmetic, match selection, bit packing).",
    technique="constant/table evaluation against reference tables derived in the checker; SSA ordering and data-dependence of header writes/reads",
    ref="DESIGN.md section 4, C07"),
+ "C19": dict(
+   text="Decides from source: the dialer registry map is only touched under its mutex (must-hold lockset over every function of package transport, covers all schedules of concurrent register/unregister/dial); no index/slice/panic/unchecked assertion/division reachable from ParseURL, DialURL, DialURLContext can fail (compiler prove pass + fact engine, covers all raw strings); ErrMissingDialer is returned exactly on the not-found edge of the lookup keyed by the scheme and otherwise the looked-up dialer is called; ParseURL's success return is dominated by the short-target and digipeaters-unsupported (ardop, telnet) guards; target/digis derive from the upper-cased path. Does not decide component fidelity (equality of strings) for all tuples.",
+   technique="must-hold lockset dataflow on SSA; crash-site inventory discharged by compiler BCE proofs and a difference-bound fact engine; dominance/guard analysis of returns",
+   ref="DESIGN.md section 4, C19"),
 }
 
 not_applicable = {
